@@ -11,7 +11,7 @@ variable {α : Type}
 
 /-- **Every poll completes with a value; the model has no panic branch.**  `Dec.pollNext` is a
 total function (Lean's termination checker accepted its recursion over the events still to
-come, so a poll cannot spin without consuming an event), hence `n` polls give `n` results. -/
+come, so a poll cannot spin without consuming an event), hence `n` polls give `n` results. (Transcription lemma: it holds by unfolding the model's definition, so it pins the model's shape for the correspondence run — its assurance about tonic is the tie, not this proof.) -/
 theorem C07_every_poll_completes (cd : Codec α) (cfg : DecCfg) (n : Nat) (evs : List BodyEv) :
     (Dec.run cd cfg n Dec.init evs).length = n := by
   generalize Dec.init = s
@@ -99,7 +99,7 @@ theorem C07_malformed_frame_yields_error (cd : Codec α) (cfg : DecCfg) (hsk : c
   obtain ⟨k, hk⟩ := C07_plain_body_exact cd cfg hsk evs hplain ms (.bad b) h n hn
   exact ⟨k, by simpa [plainTail, plainEnd] using hk⟩
 
-/-- the codes of the refusals -/
+/-- the codes of the refusals (Transcription lemma: it holds by unfolding the model's definition, so it pins the model's shape for the correspondence run — its assurance about tonic is the tie, not this proof.) -/
 theorem C07_refusal_codes (cd : Codec α) :
     stOfBad cd .flag = ⟨13, .badFlag⟩ ∧ stOfBad cd .noEncoding = ⟨13, .noEncoding⟩ ∧
     stOfBad cd .tooLarge = ⟨11, .tooLargeDec⟩ ∧ stOfBad cd .decompress = ⟨13, .decompress⟩ ∧
